@@ -1080,7 +1080,11 @@ namespace
                     misViol[subEps] = true;
                 }
                 else
+                {
                     sink.count(bitEq ? "c02_replay_bitwise_equal" : "c02_replay_tolerance_equal_only");
+                    if (!bitEq)
+                        sink.count("c02_replay_tolerance_equal_only:" + P + cls);
+                }
                 sink.count("c02_controls_replayed");
                 if (n >= 2)
                 {
